@@ -16,7 +16,7 @@ import (
 // the pool and take part in later operations), then compare with the snapshot.
 
 type HistOp struct {
-	Kind  int      `json:"kind"` // 0 observe, 1 postings walk with exclusion, 2 persist, 3 merge, 4 DocsMatchingTerms, 5 stored, 6 doc values
+	Kind  int      `json:"kind"` // 0 observe, 1 postings walk with exclusion, 2 persist, 3 merge, 4 DocsMatchingTerms, 5 stored, 6 doc values, 7 CollectionStats().Merge(other)
 	Seg   int      `json:"seg"`
 	Field int      `json:"field,omitempty"`
 	Term  int      `json:"term,omitempty"`
@@ -47,7 +47,11 @@ func genHistCase(t *rapid.T, prop string) *Case {
 	hc := &HistCase{}
 	n := rapid.IntRange(1, 25).Draw(t, "nops")
 	for i := 0; i < n; i++ {
-		op := HistOp{Kind: rapid.SampledFrom([]int{0, 1, 1, 2, 3, 3, 3, 4, 5, 6}).Draw(t, "kind"), Seg: rapid.IntRange(0, 7).Draw(t, "seg")}
+		op := HistOp{Kind: rapid.SampledFrom([]int{0, 1, 1, 2, 3, 3, 3, 4, 5, 6, 7}).Draw(t, "kind"), Seg: rapid.IntRange(0, 7).Draw(t, "seg")}
+		if op.Kind == 7 {
+			op.Field = rapid.IntRange(0, 7).Draw(t, "field")
+			op.In = []int{rapid.IntRange(0, 7).Draw(t, "other")}
+		}
 		switch op.Kind {
 		case 1, 4:
 			op.Field = rapid.IntRange(0, 7).Draw(t, "field")
@@ -246,6 +250,23 @@ func runHistCase(c *Case, env *Env) *Result {
 				if _, err := is.seg.DocsMatchingTerms(ts); err != nil {
 					f = apiFail("C15", "immutability", "DocsMatchingTerms", nil, err)
 				}
+			case 7:
+				// what an index reader does when aggregating: merge another
+				// segment's statistics into the value this segment handed out
+				field := is.fields[op.Field%len(is.fields)]
+				other := pool[op.In[0]%len(pool)]
+				a, err := is.seg.CollectionStats(field)
+				if err != nil {
+					f = apiFail("C15", "immutability", "CollectionStats", nil, err)
+					return
+				}
+				b, err := other.seg.CollectionStats(field)
+				if err != nil {
+					f = apiFail("C15", "immutability", "CollectionStats", nil, err)
+					return
+				}
+				a.Merge(b)
+				res.probe("stats-merged-into-returned-value")
 			case 5:
 				if cnt > 0 {
 					_, f = VisitStored("C15", is.seg, uint64(op.Doc%cnt))
